@@ -317,3 +317,79 @@ def _deps(d):
 
 def clone(case):
     return copy.deepcopy(case)
+
+
+# ---------------------------------------------------------------- deterministic coverage corpus
+
+def coverage_case(cid="coverage"):
+    """one fixed file that uses every parameter kind in both directions at least once (alone and
+    next to others), so that every run of an execution check reaches every visitor of every
+    backend whatever the random generator happens to draw"""
+    def P(d, t, n, arr=None):
+        return {"dir": d, "type": t, "arr": arr, "name": n}
+
+    def M(name, params, optional=False):
+        return {"k": "method", "name": name, "optional": optional, "doc": None, "params": params}
+
+    def S(name, fields):
+        return {"k": "struct", "name": name, "fields": [{"type": t, "count": c, "name": n} for t, c, n in fields]}
+
+    nodes = [
+        {"k": "interface", "name": "IPeer", "base": None, "members": [M("ping", [])]},
+        S("S8", [("uint32", 1, "a"), ("uint16", 1, "b"), ("uint8", 2, "c")]),
+        S("B24", [("uint64", 1, "a"), ("uint32", 2, "b"), ("uint16", 4, "c")]),
+        S("N32", [("B24", 1, "inner"), ("S8", 1, "tail")]),
+        S("H24", [("uint32", 1, "a"), ("uint32", 1, "b"), ("IPeer", 1, "o")]),
+        S("H48", [("uint64", 1, "a"), ("IPeer", 1, "p"), ("uint64", 1, "b"), ("interface", 1, "q")]),
+        {"k": "interface", "name": "ICov", "base": None, "members": [
+            {"k": "error", "name": "COV_FAIL"},
+            M("none", []),
+            M("prim_in", [P("in", "uint32", "x")]),
+            M("prim_out", [P("out", "uint16", "y")]),
+            M("prims", [P("in", "uint8", "a"), P("in", "uint64", "b"), P("in", "int16", "c"), P("out", "int32", "d"), P("out", "float64", "e")]),
+            M("bufs", [P("in", "buffer", "a"), P("out", "buffer", "b")]),
+            M("arrs", [P("in", "uint16", "a", "unbounded"), P("out", "uint32", "b", "unbounded")]),
+            M("small", [P("in", "S8", "s"), P("out", "S8", "t")]),
+            M("small_bundled", [P("in", "S8", "s"), P("in", "uint32", "x"), P("out", "S8", "t"), P("out", "uint8", "y")]),
+            M("big", [P("in", "B24", "s"), P("out", "B24", "t")]),
+            M("nested", [P("in", "N32", "s"), P("out", "N32", "t")]),
+            M("sarrs", [P("in", "B24", "s", "unbounded"), P("out", "S8", "t", "unbounded")]),
+            M("objs", [P("in", "IPeer", "p"), P("in", "interface", "u"), P("out", "IPeer", "q")]),
+            M("objarr_in", [P("in", "IPeer", "ps", 2), P("in", "uint32", "x")]),
+            M("objarr_out", [P("out", "IPeer", "qs", 3), P("out", "uint32", "y")]),
+            M("held_in", [P("in", "H24", "h")]),
+            M("held_out", [P("out", "H24", "h")]),
+            M("held2_in", [P("in", "H48", "h")]),
+            M("held2_out", [P("out", "H48", "h")]),
+            M("mix", [P("in", "buffer", "a"), P("in", "uint32", "x"), P("in", "IPeer", "p"), P("out", "uint64", "y"), P("out", "buffer", "b"), P("out", "IPeer", "q")]),
+            M("opt", [P("in", "uint32", "x"), P("out", "uint32", "y")], optional=True),
+        ]},
+        {"k": "interface", "name": "IDer", "base": "ICov", "members": [
+            M("extra", [P("in", "uint32", "x"), P("in", "B24", "s"), P("out", "uint32", "y")]),
+            M("bare", []),
+        ]},
+    ]
+    return {"id": cid, "files": [{"path": "main.idl", "nodes": nodes}], "main": "main.idl", "incdirs": []}
+
+
+def nesting_case(depth, split, cid="nesting"):
+    """a chain of structs S0 < S1 < ... < S<depth> (each contains the previous one), the first
+    `split` of them declared in an included file, the rest and an interface using the outermost
+    one in the main file; every struct is padding free"""
+    def S(j):
+        fields = [{"type": "uint64", "count": 1, "name": f"v{j}"}]
+        if j > 0:
+            fields.insert(0, {"type": f"S{j - 1}", "count": 1 + (j % 2), "name": f"in{j}"})
+        return {"k": "struct", "name": f"S{j}", "fields": fields}
+    inc = [S(j) for j in range(split)]
+    main = [{"k": "include", "path": "deps.idl"}] if inc else []
+    main += [S(j) for j in range(split, depth + 1)]
+    top = f"S{depth}"
+    main.append({"k": "interface", "name": "INest", "base": None, "members": [
+        {"k": "method", "name": "put", "optional": False, "doc": None, "params": [{"dir": "in", "type": top, "arr": None, "name": "s"}]},
+        {"k": "method", "name": "get", "optional": False, "doc": None, "params": [{"dir": "out", "type": top, "arr": None, "name": "s"}]},
+        {"k": "method", "name": "inner", "optional": False, "doc": None, "params": [{"dir": "in", "type": "S0", "arr": None, "name": "a"}, {"dir": "out", "type": "S1", "arr": "unbounded", "name": "b"}]}]})
+    files = [{"path": "main.idl", "nodes": main}]
+    if inc:
+        files.append({"path": "deps.idl", "nodes": inc})
+    return {"id": f"{cid}-{depth}-{split}", "files": files, "main": "main.idl", "incdirs": []}
